@@ -43,7 +43,7 @@ theorem project_mem {m : Pomdp} {prev : VList} {a o : Nat} {p : VEntry} (hne : p
       sumTo_congr (fun s1 _ => by ring)
     rw [this]; ring
   · rw [if_neg hpo] at hp
-    have : p = ⟨immR m a, a, [0]⟩ := by simpa using hp
+    have : p = ⟨immR m a, a, [0]⟩ := by simpa [show Gen.C04.projImpossibleLink = 0 from rfl] using hp
     subst this
     have hpo' : possible m a o = false := by simpa using hpo
     refine ⟨rfl, rfl, by simpa [link] using List.length_pos_iff.mpr hne, by simp [immR], ?_⟩
